@@ -164,8 +164,13 @@ func main() {
 		directed = append(directed, append(append([]op(nil), hier...), tail...))
 	}
 	directed = append(directed, membershipDirected()...)
+	directed = append(directed, limitDirected()...)
 	for _, ops := range directed {
-		runCase(c, ops, full)
+		cfg := full
+		for k := 1; k < len(ops); k++ {
+			cfg.holdAt = append(cfg.holdAt, k)
+		}
+		runCase(c, ops, cfg)
 	}
 
 	// (2) exhaustive: all node/role command sequences up to the bound, all RBAC create/delete orders
